@@ -123,11 +123,11 @@ type liveConn struct {
 	Chunks  []int `json:"chunks"`  // client write sizes (cycled)
 	APIs    []int `json:"apis"`    // writer API per write (cycled): 0 Malloc+Flush 1 Write 2 WriteBinary 3 WriteString 4 mixed+one Flush 5 many 4097-byte WriteBinary pieces + one Flush
 	Reads   []int `json:"reads"`   // reader request sizes (cycled)
-	ReadOps []int `json:"readops"` // 0 Next 1 Peek+Skip 2 ReadBinary 3 Slice 4 Read 5 ReadString
+	ReadOps []int `json:"readops"` // 0 Next 1 Peek+Skip 2 ReadBinary 3 Slice 4 Read 5 ReadString 6 Peek+ReadByte+Peek+Skip (frame parser) 7 ReadByte xN
 	SndBuf  int   `json:"sndbuf"`
 	RcvBuf  int   `json:"rcvbuf"`
 	PaceUS  int   `json:"pace_us"`
-	OneStep bool  `json:"one_step,omitempty"`  // the server's handler takes one read per invocation (the loop re-invokes it)
+	OneStep bool  `json:"one_step,omitempty"`          // the server's handler takes one read per invocation (the loop re-invokes it)
 	CloseAW bool  `json:"close_after_write,omitempty"` // the client closes right after its last Flush (send-and-close)
 }
 
@@ -156,7 +156,7 @@ func genLiveScn(t *rapid.T, big bool) liveScn {
 		}
 		for j, n := 0, rapid.IntRange(1, 5).Draw(t, "nreads"); j < n; j++ {
 			c.Reads = append(c.Reads, rapid.OneOf(rapid.IntRange(1, 100), rapid.IntRange(1, 9000), rapid.IntRange(4000, 100000)).Draw(t, "read"))
-			c.ReadOps = append(c.ReadOps, rapid.IntRange(0, 5).Draw(t, "readop"))
+			c.ReadOps = append(c.ReadOps, rapid.IntRange(0, 7).Draw(t, "readop"))
 		}
 		c.SndBuf = rapid.SampledFrom([]int{0, 2048, 4096, 16384, 65536}).Draw(t, "sndbuf")
 		c.RcvBuf = rapid.SampledFrom([]int{0, 2048, 4096, 16384, 65536}).Draw(t, "rcvbuf")
@@ -247,6 +247,37 @@ func (sr *streamReader) step(conn Connection, limit int) (int, error) {
 		var s string
 		s, err = rd.ReadString(n)
 		p = []byte(s)
+	case 6:
+		// the way a frame parser reads: look at the header, take the tag byte, look at the rest, consume it
+		var hd []byte
+		hd, err = rd.Peek(n)
+		if err == nil {
+			hd = append([]byte(nil), hd...)
+			var b byte
+			if b, err = rd.ReadByte(); err == nil {
+				p = append(p, b)
+				if n > 1 {
+					var rest []byte
+					if rest, err = rd.Peek(n - 1); err == nil {
+						p = append(p, rest...)
+						err = rd.Skip(n - 1)
+					}
+				}
+				if err == nil && string(hd) != string(p) {
+					sr.fail("read op 6: Peek(%d) and ReadByte+Peek(%d) disagree at stream offset %d", n, n-1, off-sr.base)
+				}
+			}
+		}
+	case 7:
+		if n > 64 {
+			n = 64
+		}
+		for k := 0; k < n && err == nil; k++ {
+			var b byte
+			if b, err = rd.ReadByte(); err == nil {
+				p = append(p, b)
+			}
+		}
 	}
 	if err != nil {
 		return 0, err
@@ -701,7 +732,11 @@ func runShutdown(s shutScn) (sig, msg string) {
 		mu.Lock()
 		defer mu.Unlock()
 		return len(conns) >= total && int(atomic.LoadInt32(&inBusy)) >= s.Busy
-	}, func() int64 { mu.Lock(); defer mu.Unlock(); return int64(len(conns)) + int64(atomic.LoadInt32(&inBusy)) }) {
+	}, func() int64 {
+		mu.Lock()
+		defer mu.Unlock()
+		return int64(len(conns)) + int64(atomic.LoadInt32(&inBusy))
+	}) {
 		return "accept-stall", fmt.Sprintf("only %d of %d connections were accepted\n%s", len(conns), total, goroutineDump())
 	}
 	// idle connections must really be idle before Shutdown looks at them
